@@ -713,6 +713,99 @@ async fn run_client_stack_case(c: &Value, id: &str) -> Value {
     })
 }
 
+// ---------------------------------------------------------------------------------------
+// end to end: the real client stack asks the real server (in-process), whose messages are fed
+// back one by one; then the connection stays silent (the server keeps it open) until the client's
+// request time-out
+
+async fn run_e2e_case(c: &Value, id: &str) -> Result<Value, String> {
+    let w = build_world(c)?;
+    let mut zones = Vec::new();
+    for z in &w.zones {
+        zones.push(stored(z).await);
+    }
+    let serial = zones[0]["serial"].as_u64().unwrap() as u32;
+    let origin = Name::from_ascii(APEX).unwrap();
+    let mode = c["mode"].as_str().unwrap_or("axfr");
+    let have = match c["have"].as_str().unwrap_or("none") {
+        "older" => serial.wrapping_sub(1),
+        "same" => serial,
+        "newer" => serial.wrapping_add(1),
+        _ => 0,
+    };
+    let addr: SocketAddr = "192.0.2.53:53".parse().unwrap();
+    let inb = Arc::new(Mutex::new(Inbound::default()));
+    let (handle, mut outbound) = BufDnsStreamHandle::new(addr);
+    let (mut client, bg) = Client::<TokioRuntimeProvider>::new(Peer { inb: inb.clone(), addr }, handle);
+    let bg_task = tokio::spawn(bg);
+    let last = if mode == "ixfr" { Some(client_soa(&origin, have, true)) } else { None };
+    QUIET.store(true, Ordering::Relaxed);
+    let mut stream = client.zone_transfer(origin.clone(), last);
+    let collector = tokio::spawn(async move {
+        let mut items: Vec<&'static str> = Vec::new();
+        let mut delivered: Vec<String> = Vec::new();
+        let mut ended = false;
+        while items.len() < 20_000 {
+            match stream.next().await {
+                Some(Ok(r)) => {
+                    items.push("ok");
+                    delivered.extend(r.answers.iter().map(rr_str));
+                }
+                Some(Err(_)) => items.push("err"),
+                None => {
+                    ended = true;
+                    break;
+                }
+            }
+        }
+        (items, delivered, ended)
+    });
+    let request = match tokio::time::timeout(Duration::from_secs(1), outbound.next()).await {
+        Ok(Some(sm)) => sm.into_parts().0,
+        _ => {
+            bg_task.abort();
+            collector.abort();
+            QUIET.store(false, Ordering::Relaxed);
+            return Err("no request left the multiplexer".into());
+        }
+    };
+    let answers = exchange(&w, request, Protocol::Tcp).await;
+    QUIET.store(true, Ordering::Relaxed);
+    let (server_obs, answers) = match answers {
+        Ok(a) => ("ok", a),
+        Err(_) => ("PANIC", Vec::new()),
+    };
+    let summary: Vec<Value> = answers
+        .iter()
+        .map(|b| match Message::from_vec(b) {
+            Ok(m) => json!({"rc": u16::from(m.metadata.response_code), "tc": m.metadata.truncation, "an": m.answers.len(), "len": b.len()}),
+            Err(_) => json!({"rc": 0 - 1, "tc": false, "an": 0, "len": b.len()}),
+        })
+        .collect();
+    for b in answers {
+        inb.lock().unwrap().q.push_back(b);
+        if let Some(wk) = inb.lock().unwrap().waker.take() {
+            wk.wake();
+        }
+        for _ in 0..6 {
+            tokio::task::yield_now().await;
+        }
+    }
+    let res = tokio::time::timeout(Duration::from_secs(600), collector).await;
+    QUIET.store(false, Ordering::Relaxed);
+    bg_task.abort();
+    let (obs, items, delivered, ended) = match res {
+        Ok(Ok((i, d, e))) => (server_obs, i, d, e),
+        Ok(Err(_)) => ("PANIC", Vec::new(), Vec::new(), false),
+        Err(_) => ("HANG", Vec::new(), Vec::new(), false),
+    };
+    Ok(json!({
+        "ev": "e2e", "case": id, "store": c["store"].as_str().unwrap_or("memory"), "policy": c["policy"].as_str().unwrap_or("all"),
+        "mode": mode, "have": c["have"].as_str().unwrap_or("none"), "zone": zones[0], "server": summary,
+        "items": items, "ended": ended, "delivered": delivered, "obs": obs,
+    }))
+}
+
 /// the transfer request the client builds (RFC 5936 2.1, RFC 1995 3)
 fn run_request_case(c: &Value, id: &str) -> Value {
     let origin = Name::from_ascii(APEX).unwrap();
@@ -962,6 +1055,10 @@ fn main() {
                 Ok(ev) => ev,
                 Err(e) => json!({"ev": "harness-error", "case": id, "error": e}),
             },
+            "e2e" => match rt_paused.block_on(run_e2e_case(c, id)) {
+                Ok(ev) => ev,
+                Err(e) => json!({"ev": "harness-error", "case": id, "error": e}),
+            },
             "client" if c["via"] == "stack" => rt_paused.block_on(run_client_stack_case(c, id)),
             "client" => run_client_case(c, id),
             "request" => run_request_case(c, id),
@@ -1015,7 +1112,16 @@ fn main() {
         "record" => {
             let mut rng = StdRng::seed_from_u64(seed);
             for k in 0..n_cases {
-                let c = if k % 3 == 2 { random_client_case(&mut rng) } else { random_server_case(&mut rng) };
+                let c = if k % 3 == 2 {
+                    random_client_case(&mut rng)
+                } else if k % 12 == 1 {
+                    let mode = if rng.random_bool(0.7) { "axfr" } else { "ixfr" };
+                    let have = if mode == "ixfr" { ["older", "same", "newer"][rng.random_range(0..3)] } else { "none" };
+                    json!({"kind": "e2e", "zone": random_zone(&mut rng), "sign": "none", "store": if rng.random_bool(0.5) { "memory" } else { "sqlite" },
+                           "policy": if rng.random_bool(0.8) { "all" } else { "deny" }, "others": false, "mode": mode, "have": have})
+                } else {
+                    random_server_case(&mut rng)
+                };
                 let id = format!("r{seed}-{k}");
                 let ev = run(&c, &id);
                 writeln!(trace, "{ev}").unwrap();
